@@ -56,6 +56,24 @@ class C15(SpecValueCheck):
         self._shard = shard
         return super().run_shard(shard, tier, seed, rec)
 
+    def directed(self, tier, shard):
+        """top-level tags of every class with numbers up to 2^28 x content lengths 0..70000"""
+        from ..asn import Ty, Member, Module, Spec, Rng, Tag
+        m = Module('M', 'IMPLICIT')
+        cases = []
+        i = 0
+        for cls in ('CONTEXT', 'APPLICATION', 'PRIVATE'):
+            for num in (0, 30, 31, 127, 128, 16383, 16384, 2 ** 21 - 1, 2 ** 21, 2 ** 28 - 1, 2 ** 28):
+                i += 1
+                for mode in ('IMPLICIT', 'EXPLICIT'):
+                    name = 'T%d%s' % (i, mode[0])
+                    m.types.append((name, Ty('OCTET STRING', tag=Tag(cls, num, mode))))
+                    lens = [0, 1, 126, 127, 128, 255, 256, 65535, 65536] if tier == 'quick' else \
+                        [0, 1, 120, 125, 126, 127, 128, 250, 255, 256, 65530, 65535, 65536, 70000]
+                    cases.append((name, [b'\x77' * n for n in lens]))
+        spec = Spec([m])
+        return [(spec, [('M', name, vals)]) for name, vals in cases]
+
     def oracle(self, x):
         m = x.encode()
         if m is None:
